@@ -56,7 +56,7 @@ impl CostFunction<Main> for OpWeighted {
     }
 }
 
-fn probe<CF: CostFunction<Main, Cost = u64>>(eg: &EGraph<Main>, cf: CF, cf2: CF, name: &str, rng: &mut Rng, qs: &mut Vec<String>, outs: &mut Vec<String>, tags: &mut Vec<String>) {
+fn probe<CF: CostFunction<Main, Cost = u64>>(eg: &EGraph<Main>, cf: CF, cf2: CF, name: &str, rng: &mut Rng, qs: &mut Vec<String>, outs: &mut Vec<String>, tags: &mut Vec<String>, tracked: &[AppliedId]) {
     let mut viol = |t: &str, tags: &mut Vec<String>| {
         let t = format!("viol:{t}");
         if !tags.contains(&t) {
@@ -117,6 +117,40 @@ fn probe<CF: CostFunction<Main, Cost = u64>>(eg: &EGraph<Main>, cf: CF, cf2: CF,
             }
         }
     }
+    // the handles the history returned, as they were returned (ids of classes merged away since, arguments of slots dropped
+    // since): `extract` canonicalises its argument, so the same three facts must hold for them
+    for h in tracked {
+        let f = eg.find_applied_id(h);
+        let best = guarded(|| ex.get_best_cost::<()>(&f)).ok();
+        if best.is_none() {
+            continue;
+        }
+        match guarded(|| ex.extract(h, eg)) {
+            Ok(t) => {
+                if Some(cf2.cost_rec(&t)) != best {
+                    viol("extracted-from-old-handle-cost-differs-from-best-cost", tags);
+                }
+                match guarded(|| lookup_rec_expr(&t, eg)) {
+                    Ok(Some(a)) => {
+                        if !eg.eq(&a, h) {
+                            viol("extracted-from-old-handle-not-in-queried-invocation", tags);
+                        }
+                    }
+                    _ => viol("extracted-from-old-handle-not-represented", tags),
+                }
+                let hslots: Vec<u32> = h.slots().iter().map(|s| code(*s)).collect();
+                for s in free_slots(&from_recexpr::<Main>(&t)) {
+                    if !hslots.contains(&s) && s % 4 != 1 {
+                        viol("extracted-from-old-handle-has-foreign-slot", tags);
+                    }
+                }
+            }
+            Err(e) => {
+                viol("extract-from-old-handle-panics", tags);
+                tags.push(format!("panic:{}", e.replace(',', " ")));
+            }
+        }
+    }
 }
 
 pub fn exec_ext(ops: Vec<Op>, rules: Vec<usize>, iters: usize, seed: u64) -> Case {
@@ -159,9 +193,9 @@ pub fn exec_ext(ops: Vec<Op>, rules: Vec<usize>, iters: usize, seed: u64) -> Cas
         let mut qs = Vec::new();
         let mut outs = Vec::new();
         let mut tags = Vec::new();
-        probe(&eg, AstSize, AstSize, "ast", &mut rng, &mut qs, &mut outs, &mut tags);
-        probe(&eg, DepthWeighted, DepthWeighted, "depth", &mut rng, &mut qs, &mut outs, &mut tags);
-        probe(&eg, OpWeighted, OpWeighted, "op", &mut rng, &mut qs, &mut outs, &mut tags);
+        probe(&eg, AstSize, AstSize, "ast", &mut rng, &mut qs, &mut outs, &mut tags, &tracked);
+        probe(&eg, DepthWeighted, DepthWeighted, "depth", &mut rng, &mut qs, &mut outs, &mut tags, &tracked);
+        probe(&eg, OpWeighted, OpWeighted, "op", &mut rng, &mut qs, &mut outs, &mut tags, &tracked);
         let redundant = snap.split('~').any(|l| l.starts_with("uf ") && false) || eg.ids().iter().any(|i| eg.enodes(*i).iter().any(|n| n.slots().len() > eg.slots(*i).len()));
         (snap, qs, outs, tags, redundant)
     });
